@@ -234,7 +234,8 @@ def _bessel(kind, nu, x):
         raise Unsupported("bessel of complex argument")
     def one(v):
         try:
-            return float(f(int(nu), sympy.Float(float(v), 30)).evalf(20))
+            order = int(nu) if float(nu) == int(nu) else sympy.Float(float(nu), 30)  # (never truncate a real order)
+            return float(f(order, sympy.Float(float(v), 30)).evalf(20))
         except TypeError:
             raise Unsupported("bessel function outside its real domain for this data")
 
